@@ -3,6 +3,7 @@ package props
 import (
 	"bufio"
 	"bytes"
+	"errors"
 	"fmt"
 	"io"
 	"strings"
@@ -109,7 +110,7 @@ func c15Harness(cfg *Cfg) func(x *mc.Exec) {
 			return
 		}
 		if oerr != nil {
-			if oerr != E {
+			if !errors.Is(oerr, E) {
 				x.Fail(fmt.Sprintf("C15 constructor-masks-error %s got=%s", site, errClass(oerr)), "%s: constructor returned %v instead of the source's error", desc, oerr)
 				return
 			}
@@ -126,7 +127,7 @@ func c15Harness(cfg *Cfg) func(x *mc.Exec) {
 			x.Fail("C15 wrong-data "+site, "%s: %s", desc, diffDesc(o.Out, st.payload))
 			return
 		}
-		if o.Err != E {
+		if !errors.Is(o.Err, E) {
 			complete := k == n && o.Err == io.EOF && len(o.Out) == len(st.payload)
 			// gzip in multistream mode must look for a next member and therefore meets the error even at k == n
 			if !complete {
